@@ -188,6 +188,20 @@ def run(ctx):
             ctx.ob("C20.A2.rebuild-only-on-demand", "%s#%d" % (kind, n), c.bb not in seen,
                    "reachable without `cached.is_none()` or `should_reload()` being true", acq.where(c.bb))
 
+    # A6: the reload decision is taken while the environment lock is held.  A decision polled before `cached_env.lock()`
+    # is stale by the time the lock is acquired: a request that returned in between is not honoured by this acquire
+    # (and two waiters that both polled "reload" rebuild twice for one request).
+    locks = [c for c in acq.calls() if c.name == "std::sync::poison::mutex::Mutex::lock" and any(
+        "cached_env" in o.proj for o in flow.origins(acq, c.args[0]))]
+    ctx.floor("C20.A6 cached_env.lock() in acquire_env", len(locks), 1)
+    polls = [c for c in acq.calls() if c.name == SHOULD]
+    ctx.floor("C20.A6 should_reload() polls in acquire_env", len(polls), 1)
+    for n_, c in enumerate(polls):
+        ctx.ob("C20.A6.reload-decision-is-taken-under-the-env-lock", "should_reload#%d" % n_,
+               any(cfg.dominates(acq, l.bb, c.bb) for l in locks),
+               "should_reload() is polled before `cached_env.lock()`: while this thread waits for the lock a request can "
+               "return, and the environment handed out afterwards predates it", acq.where(c.bb))
+
     # A3: NotifierImpl accesses under the mutex
     acc = impl_accesses(prog)
     ctx.floor("C20.A3 NotifierImpl field accesses", len(acc), 10)
